@@ -387,7 +387,7 @@ var javaErr = []rule{
 	{"Invalid address ", " for server ", "ServerAddr"},
 	{"Fallback/try server ", "must be registered under servers", "TryUnknown"},
 	{"Forced host ", "must be registered under servers", "ForcedUnknown"},
-	{"Forced hosts ", "differ only in letter case", "ForcedCaseDup"}, // message of fixes/C37-2.diff
+	{"Forced hosts ", "differ only in letter case", "ForcedCaseDup"}, // fix commit ad3d3c8
 	{"Unsupported compression level ", "", "CompressionLevel"},
 	{"Invalid compression threshold ", "", "CompressionThreshold"},
 }
